@@ -8,5 +8,6 @@ func xGo(f func())                     { go f() }
 func xSend[T any](ch chan T, v T)      { ch <- v }
 func xRecv[T any](ch chan T) (T, bool) { v, ok := <-ch; return v, ok }
 func xClose[T any](ch chan T)          { close(ch) }
+func xIsClosed[T any](ch chan T) bool  { return true } // not observable natively
 
 const Controlled = false
